@@ -47,6 +47,31 @@ CHECKS["C19"] = dict(
     note=TRUST + "Floating-point rounding not modelled; ystep != 0. Not decided: 1.5 pixel landing, linearity, "
          "iradon's internal half-pixel conventions.")
 
+CHECKS["C06"] = dict(
+    category="other", design_ref="DESIGN.md section 3 / C06",
+    technique="must-defined dataflow on the C CFG; dominance of guards; symbolic execution of the kernels and "
+              "interpretation of the Python references in a polynomial value-numbering domain (sibling agreement)",
+    text="Static: (R1) no local of closest.c is read before assignment on any path (this is what found refine_assigned's "
+         "uninitialised accumulators); (R2) ubi is overwritten only on the path where both 3x3 inversions succeeded, and "
+         "inverse3x3 writes/returns 0 only under det != 0; (R3) score, score_and_refine, score_and_assign and the Python "
+         "references compute the same polynomial sum_j (h_j - rnd(h_j))^2 with h = ubi.g and compare it strictly with "
+         "tol^2; (R4) score_and_refine, refine_assigned, indexing.refine and indexer.refine produce the same expression "
+         "inv(R inv(H)) with R = sum g h^T, H = sum h h^T (uninterpreted 3x3 inverse), count and mean as sum/n; (R5) "
+         "preconditions of the magic-number rounding. Equality is of real-valued expressions for a generic peak.",
+    note=TRUST + "rnd() models both the magic-add rounding and floor(x+0.5) (they differ at exact halves). Not decided: "
+         "floating-point agreement with numpy.linalg, conditioning, |h| ~ 1e3 accuracy.")
+CHECKS["C17"] = dict(
+    category="other", design_ref="DESIGN.md section 3 / C17",
+    technique="typestate / representation-invariant rules over the class's methods: ast effect sets, statement CFG "
+              "post-dominance (resync after every storage rebind), dominance of length gates, freshness of copied columns",
+    text="Static, per method and therefore for every history: (R1) every method that rebinds the private column storage "
+         "re-synchronises the per-title attributes on all normal exits; (R2) filter/reorder/copyrows apply one loop-invariant "
+         "selector to all columns, nrows follows the data; (R3) length gates dominate stores; (R4) copy/copyrows allocate "
+         "fresh columns, titles and parameters; (R5) chkarray precedes reads of the storage; (R6) the 2-D cache is only "
+         "adopted when provably fresh. These are necessary conditions of the invariant 'attribute, item and getcolumn views "
+         "are the same rectangular data'.",
+    note=TRUST + "Not decided: numpy indexing/argsort semantics; objects built by HDF loaders beyond addcolumn.")
+
 NOT_YET = {}
 
 NOT_APPLICABLE = {
